@@ -27,9 +27,28 @@ def _pairs_routing(mb):
     return pairs
 
 
+def _collect_env(run, res, stats):
+    """Environment variations (tapes.vary_env) that ACTUALLY took place in this run."""
+    faults = stats.setdefault('faults', {})
+    probes = stats.setdefault('probes', {})
+    if run.get('lazycomp'):
+        faults['component_does_not_look_up_the_runtime'] = faults.get('component_does_not_look_up_the_runtime', 0) + 1
+    for r in res.records:
+        k = r['kind']
+        if k == 'client_ids_early':
+            probes['client_identifiers_queried_during_registration'] = probes.get('client_identifiers_queried_during_registration', 0) + 1
+        elif k == 'sibling_setup' and r.get('result') == 'ok':
+            faults['second_shell_instance_in_the_process'] = faults.get('second_shell_instance_in_the_process', 0) + 1
+            if r.get('holder') not in (None, '-1'):
+                probes['sibling_instance_holds_a_claim_of_its_own'] = probes.get('sibling_instance_holds_a_claim_of_its_own', 0) + 1
+        elif k == 'sibling_check':
+            probes['sibling_instance_inspected_after_the_run'] = probes.get('sibling_instance_inspected_after_the_run', 0) + 1
+
+
 def _collect_routing(mb, run, res, stats, covered):
     faults = stats.setdefault('faults', {})
     probes = stats.setdefault('probes', {})
+    _collect_env(run, res, stats)
     if run['stall_len'] > 0 and int(res.end.get('steps', 0)) > run['stall_from']:
         faults['dispatcher_stall'] = faults.get('dispatcher_stall', 0) + 1
     if run['scrub']:
@@ -85,6 +104,7 @@ def _gen_model_c09(rng: Rng):
 def _collect_c09(mb, run, res, stats, covered):
     faults = stats.setdefault('faults', {})
     probes = stats.setdefault('probes', {})
+    _collect_env(run, res, stats)
     if run.get('kind') == 'construction':
         loc = run['loc']
         origin = mb.cfgspec['origin']
@@ -113,6 +133,7 @@ def _pairs_c09(mb):
 def _collect_c10(mb, run, res, stats, covered):
     faults = stats.setdefault('faults', {})
     probes = stats.setdefault('probes', {})
+    _collect_env(run, res, stats)
     if run['unbinds']:
         side, ev, cl = run['unbinds'][0]
         e = mb.events[ev]
@@ -120,9 +141,14 @@ def _collect_c10(mb, run, res, stats, covered):
         key = f"unbound:{p['sem']}/{p['dir']}/{e['dir']}-event/{'user' if side == 0 else 'component'}"
         faults[key] = faults.get(key, 0) + 1
         covered.add((side, ev, cl))
+    elif run.get('reentry'):
+        faults['log_sink_re-enters_the_shell_and_registers_a_client'] = faults.get('log_sink_re-enters_the_shell_and_registers_a_client', 0) + 1
     else:
         probes['all_bound_world'] = probes.get('all_bound_world', 0) + 1
     for r in res.records:
+        if r['kind'] == 'monitor_registered':
+            k = f"client_registered_by_log_sink:{r['result']}:{ {'0': 'before', '1': 'during', '2': 'after', '3': 'after-failed'}[r['fcstate']] }-FinalConstruct"
+            probes[k] = probes.get(k, 0) + 1
         if r['kind'] == 'fc':
             k = 'final_construct_threw' if r['result'] == 'throw' else 'final_construct_returned'
             probes[k] = probes.get(k, 0) + 1
@@ -153,6 +179,7 @@ def _gen_model_mc(rng: Rng):
 def _collect_c04(mb, run, res, stats, covered):
     faults = stats.setdefault('faults', {})
     probes = stats.setdefault('probes', {})
+    _collect_env(run, res, stats)
     mc = mb.mc
     h = oracles.History(mb, run, res)
     holder = None
@@ -194,6 +221,7 @@ def _gen_model_c11(rng: Rng):
 def _collect_c11(mb, run, res, stats, covered):
     faults = stats.setdefault('faults', {})
     probes = stats.setdefault('probes', {})
+    _collect_env(run, res, stats)
     h = oracles.History(mb, run, res)
     mc = mb.mc
     wins = oracles.c11_windows(h)
